@@ -142,13 +142,18 @@ def r2_r4(ctx, F, hub):
     reads = fl.calls_to('std::io::Read::read')
     take_ok = False
     read_local = None
+    read_blocks = set()
     for rb, rt in reads:
         for o in fl.origins(rt['args'][0]):
             if o.kind == 'call' and o.key == 'std::io::Read::take':
                 lo = call_arg_origins(fl, o.bb, 1)
                 if lo and all(x.kind == 'param' and x.key == len_i and not x.path for x in lo):
                     take_ok = True
-                    read_local = rb
+                    read_blocks.add(rb)
+    # the read that sits in a loop (a primed `while n != 0` has one before the loop and one at the end of the body)
+    for rb in sorted(read_blocks):
+        if any(rb in blocks for blocks in cfg.loops().values()):
+            read_local = rb
     ctx.check(take_ok, 'C10.R3', 'handle_put:reader=take(len)', 'content is read through r.take(len) with the request\'s len',
               'the staging loop does not read through take(<declared len>): it can swallow following frames or stop short', term_loc(b, lb))
     # loop exits only on n == 0 (or an error)
@@ -167,7 +172,7 @@ def r2_r4(ctx, F, hub):
                     r = cfg.reach(t, cut_blocks=errs)
                     if t in errs or not (r & (rets | {lb})):
                         continue      # leaves towards an error return only
-                    if not n_zero_edge(fl, b, s, t, read_local):
+                    if not n_zero_edge(fl, b, s, t, read_blocks):
                         ok_exit = False
         ctx.check(bool(heads) and ok_exit, 'C10.R3', 'handle_put:loop-exit-on-eof', 'the only normal exit of the staging loop is read() == 0',
                   'the staging loop can end before the reader is exhausted', term_loc(b, read_local))
@@ -194,17 +199,18 @@ def is_error_path(b, cfg, t, errs):
     return t in errs
 
 
-def n_zero_edge(fl, b, s, t, read_bb):
-    """edge s->t is the `n == 0` true edge where n is the result of the read in read_bb."""
+def n_zero_edge(fl, b, s, t, read_blocks):
+    """edge s->t is taken exactly when n == 0 (`n == 0` true edge or `n != 0` false edge), n being the count returned by
+    one of the reads of the bounded reader (all of n's definitions are such reads)."""
     for st in b.blocks[s]['stmts']:
         rv = st['rv']
-        if rv['k'] == 'bin' and rv['op'] == 'Eq':
+        if rv['k'] == 'bin' and rv['op'] in ('Eq', 'Ne'):
             oa, ob = fl.origins(rv['ops'][0]), fl.origins(rv['ops'][1])
-            rd = lambda os_: any(o.kind == 'call' and o.key == 'std::io::Read::read' and o.bb == read_bb for o in os_)
-            z = lambda os_: any(o.kind == 'const' and o.key == 0 for o in os_)
+            rd = lambda os_: bool(os_) and all(o.kind == 'call' and o.key == 'std::io::Read::read' and o.bb in read_blocks for o in os_ if o.kind != 'comb')
+            z = lambda os_: bool(os_) and all(o.kind == 'const' and o.key == 0 for o in os_)
             if (rd(oa) and z(ob)) or (rd(ob) and z(oa)):
                 oc = fl.outcomes(None, st['dst']['l'])
-                if any(e[0] == s and e[1] == t for e in oc.get('true', ())):
+                if any(e[0] == s and e[1] == t for e in oc.get('true' if rv['op'] == 'Eq' else 'false', ())):
                     return True
     # the exit may go through a trivial block
     for t2, lab in fl.cfg.succ[s]:
@@ -233,7 +239,7 @@ def r6(ctx, F, hub):
     accesses = []
     for body in F.nested('serve::handle_get'):
         f2 = flow_of(body)
-        for bb, t in f2.calls(lambda c: c in FS_PATH_SINKS or c in ('serve::current_hash', 'meta::fingerprint_path')):
+        for bb, t in f2.calls(lambda c: c in FS_PATH_SINKS or c in (hub.current_hash, 'meta::fingerprint_path')):
             c = callee(t)
             pos = FS_PATH_SINKS.get(c, [0])
             for p in pos:
